@@ -130,13 +130,13 @@ func ClearTable(client dynamodbiface.DynamoDBAPI, tableName string) error {
 		panic("ClearTable: invalid client type")
 	}
 
+	fakeClient.mu.Lock()
+	defer fakeClient.mu.Unlock()
+
 	table, err := fakeClient.getTable(tableName)
 	if err != nil {
 		return err
 	}
-
-	fakeClient.mu.Lock()
-	defer fakeClient.mu.Unlock()
 
 	table.Clear()
 
